@@ -47,6 +47,23 @@ var zvC21Seeds = map[string]func() []byte{
 	},
 }
 
+var zvC21PairSeeds = []string{"keepalive", "update", "update6", "notification", "open", "bad-marker", "bad-length"}
+
+func zvC21PairSecond(i int) []byte {
+	switch n := zvC21PairSeeds[i]; n {
+	case "bad-marker":
+		b := zvwKeepalive()
+		b[5] = 0
+		return b
+	case "bad-length":
+		b := zvwKeepalive()
+		b[16], b[17] = 0, 5
+		return b
+	default:
+		return zvC21Seeds[n]()
+	}
+}
+
 func (c zvC21Case) bytes() []byte {
 	switch c.Kind {
 	case "header", "marker":
@@ -75,6 +92,9 @@ func (c zvC21Case) bytes() []byte {
 		b := zvC21Seeds[c.Seed]()
 		b[c.Offset] = c.Value
 		return b
+	case "pair":
+		// two messages in one segment: Seed then the message named by Type (index into zvC21PairSeeds)
+		return append(zvC21Seeds[c.Seed](), zvC21PairSecond(int(c.Type))...)
 	case "mpreach":
 		// MP_REACH_NLRI: AFI (Type: 1|2), SAFI 1, next hop length ALen, followed by Offset octets (value 1,2,3,...; no reserved octet / NLRI beyond them)
 		v := []byte{0, c.Type, 1, byte(c.ALen)}
@@ -348,6 +368,15 @@ func zvC21Cases(thorough bool) []zvC21Case {
 			}
 		}
 	}
+	// two messages back to back in one segment (the second one is on the wire while the first is processed)
+	for _, st := range states {
+		for _, first := range []string{"keepalive", "update", "update6", "notification", "open"} {
+			for i := range zvC21PairSeeds {
+				cs = append(cs, zvC21Case{State: st, Kind: "pair", Seed: first, Type: byte(i)})
+				cs = append(cs, zvC21Case{State: st, Kind: "pair", Seed: first, Type: byte(i), Split: 19})
+			}
+		}
+	}
 	// MP_REACH_NLRI with every combination of announced next hop length and octets really present
 	nhls := []int{0, 1, 3, 4, 5, 12, 15, 16, 17, 24, 31, 32, 33, 48, 64, 255}
 	for _, afi := range []byte{1, 2} {
@@ -369,7 +398,7 @@ func TestVerifC21(t *testing.T) {
 	r := vh.Start(t, "C21")
 	defer r.Finish()
 	r.Rule("byte streams delivered to a session in OpenSent / OpenConfirm / Established next to a second established session: header length field over the tier's set (0..40, 4090..4100, boundary values; thorough: 0..299, 3901..4399, every 257th, 65201..65535) x type {0,1,2,3,4,5,255}; " +
-		"marker corruptions at every offset; every offset x {0,1,0x7f,0x80,0xff} of five valid seed messages, also split across two reads; a valid UPDATE with one more path attribute of every type code 0..255 x flags {0x40,0x80,0xc0,0x90; thorough 8 combinations} x lengths {0,1,3,4,7,8; thorough 14 values, IPv4 and IPv6 seed}; MP_REACH_NLRI with AFI {1,2} x announced next hop length (16 values) x octets present 0..40,64,65 (thorough 0..66); non-trivial = cases whose header is malformed by RFC 4271 6.1 (NOTIFICATION code/subcode checked)")
+		"marker corruptions at every offset; every offset x {0,1,0x7f,0x80,0xff} of five valid seed messages, also split across two reads; a valid UPDATE with one more path attribute of every type code 0..255 x flags {0x40,0x80,0xc0,0x90; thorough 8 combinations} x lengths {0,1,3,4,7,8; thorough 14 values, IPv4 and IPv6 seed}; every ordered pair of {KEEPALIVE, UPDATE, IPv6 UPDATE, NOTIFICATION, OPEN} x {those, bad marker, bad length} in one segment; MP_REACH_NLRI with AFI {1,2} x announced next hop length (16 values) x octets present 0..40,64,65 (thorough 0..66); non-trivial = cases whose header is malformed by RFC 4271 6.1 (NOTIFICATION code/subcode checked)")
 	r.Require("malformed_header_cases", "wellformed_header_cases", "attribute_sweep_session_stays_up", "attribute_sweep_session_reset")
 	if r.IsReplay() {
 		var c zvC21Case
